@@ -342,8 +342,15 @@ class C18(Check):
         steps = []
         stateful_points = []
         for i, fn in enumerate(fns):
-            s = Scheduler([fn], 0, [])
-            r = s.run()[0]
+            # the first traced execution of a code object does not yet deliver opcode events (CPython enables them per
+            # code object when f_trace_opcodes is first set), so the yield points are counted on a repeated run
+            prev = None
+            for _ in range(4):
+                s = Scheduler([fn], 0, [])
+                r = s.run()[0]
+                if prev == s.steps:
+                    break
+                prev = s.steps
             seq.append(r)
             steps.append(s.steps)
         desc = [f"{o['kind']}({o['schema']}#{o['datum']},{o['form']})" for o in ops]
